@@ -79,6 +79,20 @@ func c10Case(w *rt.W, text string, r roman.Rule) (accepted bool) {
 		err = roman.Valid(nB(text), r)
 		out = append(out, res{"Valid[named []byte]", 0, err, true, errors.As(err, &pb)})
 	}
+	{ // the text sits inside a larger buffer: what follows it belongs to the caller
+		rec := append(append(make([]byte, 0, len(text)+16), text...), "|VIX"...)
+		g, err := roman.DefaultParser(rec[:len(text)], r)
+		var pe *roman.NumberFormatError[[]byte]
+		out = append(out, res{"DefaultParser[[]byte] on a sub-slice", g, err, false, errors.As(err, &pe)})
+		verr := roman.Valid(rec[:len(text)], r)
+		out = append(out, res{"Valid[[]byte] on a sub-slice", 0, verr, true, errors.As(verr, &pe)})
+		if string(rec[len(text):]) != "|VIX" {
+			c10Fail(w, "parser-wrote-behind-input", text, r, "DefaultParser/Valid on a sub-slice", string(rec), text+"|VIX")
+		}
+		// the exported Parser variable is an entry point of its own
+		g, err = roman.Parser([]byte(text), r)
+		out = append(out, res{"Parser variable", g, err, false, errors.As(err, &pe)})
+	}
 	if r == 0 {
 		u := roman.Number(777777)
 		err := u.UnmarshalText([]byte(text))
@@ -205,9 +219,13 @@ func runC10(c *rt.Ctx) {
 			for _, p := range prefixes {
 				visit(p)
 			}
-			c10Case(w, "", roman.RuleDisableEmptyAsZero)
-			c10Case(w, "I", roman.RuleDisableEmptyAsZero)
-			w.ClassN("rule-disable-empty", 2)
+			// the rule is a bit set: undefined extra bits must not switch the documented bit off (or on)
+			for _, rv := range []roman.Rule{roman.RuleDisableEmptyAsZero, roman.RuleDisableEmptyAsZero | 2, roman.RuleDisableEmptyAsZero | 1<<8, ^roman.Rule(0), 2, 6, 1 << 20} {
+				for _, t := range []string{"", "I", "iv", "MMXXIV", "IIII", "Q"} {
+					c10Case(w, t, rv)
+				}
+				w.ClassN("rule-disable-empty", 1)
+			}
 		}
 		buf := make([]byte, 0, 16)
 		var rec func(depth int)
